@@ -495,6 +495,8 @@ def run_check(tier):
         "bounds": {"lines_per_kernel": "4-8", "callee_depth": 2, "array_length": "<= 2^32 symbolic"},
         "queries": q_total, "solver_time_s": round(st_total, 2), "verdict_queries": nq, "verdict_queries_undecided": und,
         "cvc5_cross_checked": cvc5_checked,
+        "undecided_queries": ["%s/%s %s" % (r["kernel"], r["backend"], q.get("site", q["kind"])) for r in analysed for q in r["queries"] if q["result"] == "unknown"],
+        "proved_on_abstraction": sum(r["verdicts"].get("proved_on_abstraction", 0) for r in analysed),
         "vacuity_witnesses": {"sites_with_real_run": vruns, "sites_without_witness": novac, "reference_outcomes": sum(r["reference_outcomes"] for r in analysed)},
         "translator_validation_runs": vruns,
         "witnesses_not_reproduced": unrepro,
